@@ -119,6 +119,9 @@ func loadProgram(shorts []string) (*Program, error) {
 	prog, spkgs := ssautil.Packages(pkgs, ssa.NaiveForm|ssa.GlobalDebug|ssa.InstantiateGenerics)
 	prog.Build()
 	P := &Program{Prog: prog, Pkgs: map[string]*packages.Package{}, SSA: map[string]*ssa.Package{}, Short: map[string]string{}, files: map[string][]byte{}}
+	for s, ip := range scopePkgs {
+		P.Short[ip] = s
+	}
 	for i, p := range pkgs {
 		for s, ip := range scopePkgs {
 			if ip == p.PkgPath {
@@ -138,7 +141,7 @@ func (P *Program) funcKey(fn *ssa.Function) string {
 	if fn.Pkg != nil {
 		pkgShort = P.Short[fn.Pkg.Pkg.Path()]
 		if pkgShort == "" {
-			pkgShort = fn.Pkg.Pkg.Path()
+			pkgShort = strings.TrimPrefix(fn.Pkg.Pkg.Path(), mainMod+"/")
 		}
 	} else if o := fn.Origin(); o != nil && o.Pkg != nil {
 		pkgShort = P.Short[o.Pkg.Pkg.Path()]
@@ -148,7 +151,7 @@ func (P *Program) funcKey(fn *ssa.Function) string {
 	} else if fn.Object() != nil && fn.Object().Pkg() != nil {
 		pkgShort = P.Short[fn.Object().Pkg().Path()]
 		if pkgShort == "" {
-			pkgShort = fn.Object().Pkg().Path()
+			pkgShort = strings.TrimPrefix(fn.Object().Pkg().Path(), mainMod+"/")
 		}
 	}
 	name := fn.Name()
@@ -319,4 +322,58 @@ func compactSrc(s string) string {
 		s = s[:67] + "..."
 	}
 	return s
+}
+
+// applyTemplates merges template clauses into the contract of every function of the
+// template's package whose parameters include the template's parameters (same name and type).
+func applyTemplates(P *Program, C *Contracts) {
+	for _, t := range C.Templates {
+		sp := P.SSA[t.Pkg]
+		if sp == nil {
+			continue
+		}
+		for _, fn := range P.allSourceFuncs(t.Pkg) {
+			if fn.Parent() != nil {
+				continue
+			}
+			ok := true
+			for _, tp := range t.Template {
+				found := false
+				for _, p := range fn.Params {
+					ts := types.TypeString(p.Type(), func(pk *types.Package) string {
+						if pk == sp.Pkg {
+							return ""
+						}
+						return pk.Name()
+					})
+					if p.Name() == tp.Name && ts == tp.T.String() {
+						found = true
+					}
+				}
+				if !found {
+					ok = false
+				}
+			}
+			if !ok {
+				continue
+			}
+			key := P.funcKey(fn)
+			fc := C.Funcs[key]
+			if fc == nil {
+				fc = &FuncContract{Key: key, Pkg: t.Pkg, Flags: map[string]bool{}, File: t.File, Line: t.Line}
+				C.Funcs[key] = fc
+			}
+			if fc.Flags["notemplate"] || fc.Flags["trusted"] {
+				continue
+			}
+			fc.Requires = append(append([]*Clause{}, t.Requires...), fc.Requires...)
+			fc.Ensures = append(append([]*Clause{}, t.Ensures...), fc.Ensures...)
+			fc.Modifies = append(append([]*Clause{}, t.Modifies...), fc.Modifies...)
+			for k, v := range t.Flags {
+				if _, set := fc.Flags[k]; !set {
+					fc.Flags[k] = v
+				}
+			}
+		}
+	}
 }
